@@ -45,3 +45,19 @@ Theorem C11_final_positions_partial : forall s st cols, simple_shape s = true ->
   /\ snd (fst (stream st s (mkOpts cols true))) = advance 1 0 (source s).
 Proof. intros s st cols H1 H2. exact (conj (final_positions s st cols H1 H2) (final_end_partial s st cols H1)). Qed.
 Print Assumptions C11_final_positions_partial.
+
+(* text-less mode with columns, ReplaceSource included: every segment lies on a position of
+   source(), the segments are sorted, the end info is exact (all trees over Raw* / Original /
+   SourceMapSource with a consistent map / Concat / Replace) *)
+From RS Require Proofs.RStreamTree Proofs.FinalTree.
+Theorem C11_final_positions_columns : forall st s,
+  RStreamTree.rshape s = true -> treeA s = true -> RStreamTree.rsmall s = true ->
+  let r := stream st s (mkOpts true true) in
+  positions_of_text (source s) (chunks_of (fst (fst r))) = true /\
+  snd (fst r) = advance 1 0 (source s) /\
+  sorted_by pos_le (chunk_mappings (fst (fst r))) = true.
+Proof.
+  intros st s H1 H2 H3. destruct (FinalTree.final_stream_facts st s H1 H2 H3) as (_ & A & B & C & _).
+  exact (conj A (conj B C)).
+Qed.
+Print Assumptions C11_final_positions_columns.
